@@ -10,6 +10,7 @@ and then aborts the build with a private exception (the inputs are frequently no
 compilable -- tuples, strings, control-rate channels for Out.ar -- and nothing after the
 constructor calls belongs to this property)."""
 import json
+from fractions import Fraction
 import os
 import sys
 
@@ -18,6 +19,7 @@ sc3.init(os.environ.get('SC3_MODE', 'nrt'))
 import sc3.base.main as _m
 from sc3.synth.synthdef import SynthDef
 from sc3.synth import ugen as ugn
+from sc3.synth import _graphparam as gpp
 from sc3.synth.ugen import ChannelList, UGen, OutputProxy, MulAdd, BasicOpUGen
 from sc3.synth.ugens import oscillators as ocl, noise as nse, line as lne, pan as pan_, inout as iou, \
     filter as flr, trig as trg, foscillators as fos
@@ -47,6 +49,8 @@ def build_value(t, pre, memo=None):
         return float(t[1])
     if k == 'B':
         return bool(t[1])
+    if k == 'Q':
+        return float(Fraction(t[1]))
     if k == 'Z':
         return -0.0
     if k == 'U':
@@ -89,9 +93,11 @@ def canon(v, index):
     if isinstance(v, int):
         return ['K', v, 'i']
     if isinstance(v, float):
+        if v != v or v in (float('inf'), float('-inf')):
+            return ['Q', repr(v)]
         if v == int(v):
             return ['K', int(v), 'z' if (v == 0 and str(v)[0] == '-') else 'f']
-        return ['X', 'float:%r' % v]
+        return ['Q', repr(v)]
     if isinstance(v, str):
         return ['S', v]
     if v is None:
@@ -189,12 +195,10 @@ def call(case, pre, bv=None):
     if kind == 'muladd_new':
         recv = bv(case['self'])
         return MulAdd.new(recv, bv(case['mul']), bv(case['add']))
-    if kind == 'out_ar':
-        bus = bv(case['bus'])
-        return getattr(iou, case.get('cls', 'Out')).ar(bus, bv(case['output']))
-    if kind == 'out_kr':
-        bus = bv(case['bus'])
-        return getattr(iou, case.get('cls', 'Out')).kr(bus, bv(case['output']))
+    if kind in ('out_ar', 'out_kr'):
+        # every output class: fixed arguments (bus | bus, xfade | none), then the channel array
+        fixed = [bv(case[key]) for key in ('bus', 'xfade') if case.get(key) is not None]
+        return getattr(getattr(iou, case.get('cls', 'Out')), kind[-2:])(*fixed, bv(case['output']))
     raise ValueError(kind)
 
 
@@ -246,15 +250,82 @@ def run_case(case):
     return {'res': canon(r, index), 'err': None, 'units': units, 'top': type(r).__name__, 'mutated': box.get('mutated', False)}
 
 
+def py_as_list(a):
+    return a if isinstance(a, list) else [a]
+
+
+def clmeth_rhs(recv, meth, args):
+    """the right-hand side of channel_list_methods_law, with the element's OWN method as leaf:
+    channel i = (element i mod |self|).meth(every argument picked i modulo its length)"""
+    cols = [py_as_list(a) for a in args]
+    n = max([len(recv)] + [len(c) for c in cols])
+    res = []
+    for i in range(n):
+        x = recv[i % len(recv)]
+        picked = [c[i % len(c)] if len(c) else [] for c in cols]
+        res.append(getattr(gpp.ugen_param(x), meth)(*picked))
+    return ChannelList(res)
+
+
+def run_clmeth(case):
+    """whole call and per-channel calls in two builds with the same prelude"""
+    def one(side):
+        box = {}
+
+        def graph():
+            sd = _m.main._current_synthdef
+            pre = make_prelude(case['pre'])
+            recv = build_value(case['self'], pre)
+            args = [build_value(a, pre) for a in case['args']]
+            try:
+                box['r'] = getattr(recv, case['meth'])(*args) if side == 'A' else clmeth_rhs(recv, case['meth'], args)
+            except Exception as e:   # noqa
+                box['e'] = type(e).__name__
+            box['children'] = list(sd._children)
+            raise Abort()
+        try:
+            SynthDef('c03m', graph)
+        except Abort:
+            pass
+        children = box.get('children', [])
+        index = {id(u): i for i, u in enumerate(children)}
+        units = [[clskey(u), [canon(x, index) for x in unit_inputs(u)]] for u in children]
+        if 'e' in box:
+            return {'res': None, 'err': box['e'], 'units': units, 'top': ''}
+        return {'res': canon(box['r'], index), 'err': None, 'units': units, 'top': type(box['r']).__name__}
+    a, b = one('A'), one('B')
+    return {'res': a['res'], 'err': [0, a['err']] if a['err'] else None, 'units': a['units'], 'top': a['top'],
+            'clmeth': {'A': a, 'B': b}}
+
+
+def probe_meta():
+    """facts about the tree under test that the property text does not fix (reported, not judged)"""
+    box = {}
+
+    def graph():
+        sd = _m.main._current_synthdef
+        iou.LocalOut.kr(ocl.SinOsc.kr(1, 0))
+        box['localout_kr_rate'] = sd._children[-1].rate
+        box['channel_list_methods'] = sorted(n for n, f in ChannelList.__dict__.items() if callable(f) and not n.startswith('_'))
+        raise Abort()
+    try:
+        SynthDef('c03meta', graph)
+    except Abort:
+        pass
+    except Exception as e:   # noqa
+        box['error'] = repr(e)
+    return box
+
+
 def main():
     cases = json.load(open(sys.argv[1]))['cases']
     out = []
     for c in cases:
         try:
-            out.append(run_case(c))
+            out.append(run_clmeth(c) if c['kind'] == 'clmeth' else run_case(c))
         except Exception as e:   # never let one case kill the run
             out.append({'res': None, 'err': [7, 'harness:' + type(e).__name__ + ':' + str(e)[:200]], 'units': [], 'top': ''})
-    json.dump({'out': out}, open(sys.argv[2], 'w'))
+    json.dump({'out': out, 'meta': probe_meta()}, open(sys.argv[2], 'w'))
 
 
 main()
